@@ -357,6 +357,16 @@ pub fn conc_worker(prop: &str, thorough: bool, base: u64, idx: u64, stride: u64,
             if res.counters.switches > 0 {
                 out.hist_hashes.push(shape ^ res.grant_hash);
             }
+            // measure of reach: distinct final states of the model(s) after a completed concurrent run, size of the models
+            if let Some(fc) = &res.final_canon {
+                if out.state_hashes.len() < 200_000 {
+                    out.state_hashes.push(hash_str(fc));
+                }
+            }
+            if k == 0 {
+                let nodes: usize = prep.view.models.iter().map(|(_, ms)| ms.nodes.len()).sum();
+                out.max_nodes = out.max_nodes.max(nodes as u64);
+            }
             if out.samples.len() < 2 && res.completed && k == 1 {
                 out.samples.push(json!({
                     "run_index": i,
